@@ -160,8 +160,30 @@ def run_case(case, ctx):
     cform = trainrec.CONTAINER_FORMS[c["cfg"] % len(trainrec.CONTAINER_FORMS)]
     ctx.seen("callback_container_forms", cform)
     tags["callbacks_as"] = cform
+    cb_arg = trainrec.as_container(cbs, cform)
+    late = []
+    if cform == "list":
+        # the list stays the caller's: the caller (here: through a callback of its own) goes on editing it during the run -
+        # it queues a callback "for the next run"; the running protocol is that of the callbacks given at the start, and
+        # the list comes back as the caller left it (no Timer added to it)
+        late_cb = LambdaCallback(on_epoch_start=lambda s_, e_: late.append(("epoch_start", e_)), on_epoch_end=lambda s_, e_: late.append(("epoch_end", e_)),
+                                 on_batch_end=lambda s_, e_, b_: late.append(("batch_end", e_, b_)), on_train_end=lambda s_: late.append(("train_end",)))
+        first_ = cbs[0]
+        orig_ts = first_.on_train_start
+
+        def ts_and_queue(s_, _o=orig_ts):
+            _o(s_)
+            cb_arg.append(late_cb)
+        first_.on_train_start = ts_and_queue
     ctx.lib("fit", st.fit, data, epochs=c["epochs"], pos_batch_size=c["pos"], neg_batch_size=c["neg"], k=c["k"], lr=0.1,
-            starting_epoch=c["start"], time=c["time"], callbacks=trainrec.as_container(cbs, cform), tags=tags, **kw)
+            starting_epoch=c["start"], time=c["time"], callbacks=cb_arg, tags=tags, **kw)
+    if cform == "list":
+        first_.on_train_start = orig_ts
+        ctx.count("caller_list_edited_during_run")
+        want_list = cbs + ([late_cb] if cb_arg and cb_arg[-1] is late_cb else [])
+        if late or [id(x_) for x_ in cb_arg] != [id(x_) for x_ in want_list]:
+            ctx.violation("callers-list-not-private", f"the caller's callbacks list is used live by the run: a callback appended to it during "
+                          f"train_start received {late[:4]}; list afterwards holds {[type(x_).__name__ for x_ in cb_arg]}", tags=tags)
     ctx.count("runs")
     if c["time"]:
         ctx.count("runs_with_timer")
